@@ -1,9 +1,9 @@
 #!/bin/bash
 # usage: confirm_seed.sh <ID> <A|B>  -- confirms a seeded change on a scratch worktree of /repo HEAD:
 #   (1) patch applies and compiles, (2) repo suite passes with it, (3) demo fails with it, (4) demo passes without it.
-ID=$1; X=$2; SRC=/tmp/seedout/$ID/$X
+ROOT=${SEEDROOT:-/tmp/seedout}; ID=$1; X=$2; SRC=$ROOT/$ID/$X
 export GOFLAGS=-mod=mod GOPROXY=off
-D=/tmp/wt-confirm-$ID-$X
+D=/tmp/wt-confirm-$ID-$X-$$
 git -C /repo worktree add --detach $D HEAD -q || exit 9
 res="apply=?"
 cd $D
